@@ -198,8 +198,15 @@ pub fn describe_calling_process(args: &[String]) -> ProcessArgs<CallingProcess> 
                         ProcessArgs::Args(CallingProcess::GitDiff(parse_command_line(args)))
                     }
                     Some("show") => {
-                        let command_line = parse_command_line(args);
-                        let filename = if let Some(last_arg) = &command_line.last_arg {
+                        let args: Vec<&str> = args.collect();
+                        let command_line = parse_command_line(args.iter().copied());
+                        // (what follows `--` are paths - `':!package-lock.json'` -, not revisions)
+                        let last_revision = args
+                            .iter()
+                            .take_while(|s| **s != "--")
+                            .filter(|s| !s.starts_with('-'))
+                            .last();
+                        let filename = if let Some(last_arg) = last_revision {
                             // `<rev>:<path>` names a file. `:/<text>` searches the commit
                             // messages, and a colon inside `@{<date>}` belongs to the revision.
                             let mut depth = 0;
